@@ -251,6 +251,22 @@ Proof.
   - unfold cm_app. simpl. rewrite <- app_assoc. f_equal; first [lia | reflexivity | destruct s; reflexivity].
 Qed.
 
+Lemma examine_frame : forall m d s,
+  halted (examine m d s) = halted s /\ unread_marker (examine m d s) = unread_marker s.
+Proof.
+  intros. unfold examine, examine_app0, examine_app14.
+  repeat match goal with |- context[if ?b then _ else _] => destruct b end; destruct s; split; reflexivity.
+Qed.
+
+Lemma save_copy_done_state : forall s cm br p n0 s' n k, save_copy s cm br p n0 = Done s' n k ->
+  unread_marker s' = 0%Z /\ halted s' = halted s.
+Proof.
+  unfold save_copy. intros s cm br p n0 s' n k H.
+  destruct (Nat.ltb _ _); inversion H. split; [reflexivity|].
+  change (halted (set_unread 0 ?x)) with (halted x).
+  simpl. now rewrite (proj1 (examine_frame _ _ _)).
+Qed.
+
 Lemma save_marker_done : forall s p s' n k, save_marker s p = Done s' n k ->
   n <= length p /\ unread_marker s' = 0%Z /\ halted s' = halted s /\
   forall e, save_marker s (p ++ e) = Done s' n k.
@@ -258,23 +274,16 @@ Proof.
   unfold save_marker. intros s p s' n k H.
   destruct (cur_marker s) as [cm|].
   - destruct (save_copy_done _ _ _ _ _ _ _ _ H) as [A B]. simpl in A.
+    destruct (save_copy_done_state _ _ _ _ _ _ _ _ H) as [U V].
     repeat split; auto.
-    + unfold save_copy in H. destruct (Nat.ltb _ _); inversion H. destruct s; reflexivity.
-    + unfold save_copy in H. destruct (Nat.ltb _ _); inversion H.
-      unfold examine, examine_app0, examine_app14.
-      repeat match goal with |- context[if ?b then _ else _] => destruct b end; destruct s; reflexivity.
-  - destruct p as [|b1 [|b2 p]]; try discriminate. simpl.
-    destruct (b1 * 256 + b2 - 2 >=? 0)%Z.
+  - destruct p as [|b1 [|b2 p]]; try discriminate.
+    change ((b1 :: b2 :: p) ++ ?e) with (b1 :: b2 :: (p ++ e)).
+    destruct (b1 * 256 + b2 - 2 >=? 0)%Z eqn:L.
     + destruct (save_copy_done _ _ _ _ _ _ _ _ H) as [A B].
-      repeat split; auto; try lia.
-      * unfold save_copy in H. destruct (Nat.ltb _ _); inversion H. destruct s; reflexivity.
-      * unfold save_copy in H. destruct (Nat.ltb _ _); inversion H.
-        unfold examine, examine_app0, examine_app14.
-        repeat match goal with |- context[if ?b then _ else _] => destruct b end; destruct s; reflexivity.
-    + inversion H; subst. repeat split; auto; try (simpl; lia).
-      * destruct s; reflexivity.
-      * unfold examine, examine_app0, examine_app14.
-        repeat match goal with |- context[if ?b then _ else _] => destruct b end; destruct s; reflexivity.
+      destruct (save_copy_done_state _ _ _ _ _ _ _ _ H) as [U V].
+      repeat split; auto; [simpl; lia|]. intros e. rewrite L. apply B.
+    + inversion H; subst. split; [simpl; lia|]. split; [reflexivity|]. split; [|intros e; now rewrite L].
+      simpl. now rewrite (proj1 (examine_frame _ _ _)).
 Qed.
 
 Lemma save_marker_more : forall s p s1 n, save_marker s p = More s1 n ->
